@@ -495,6 +495,22 @@ func isNilValue(value ssa.Value) bool {
 	return ok && constVal.Value == nil
 }
 
+// namedResultOf returns the name of the function's named result
+// which alloc is the storage of, or "" if it is any other variable.
+func namedResultOf(alloc *ssa.Alloc) string {
+	if !alloc.Pos().IsValid() {
+		return ""
+	}
+	results := alloc.Parent().Signature.Results()
+	for i := range results.Len() {
+		result := results.At(i)
+		if result.Pos() == alloc.Pos() && result.Name() == alloc.Comment && result.Name() != "_" {
+			return result.Name()
+		}
+	}
+	return ""
+}
+
 func (fc *funcConverter) convertBlock(astFunc *AstFunc, ssaBlock *ssa.BasicBlock, astBlock *AstBlock) error {
 	astBlock.HasRefs = len(ssaBlock.Preds) != 0
 
@@ -563,6 +579,14 @@ func (fc *funcConverter) convertBlock(astFunc *AstFunc, ssaBlock *ssa.BasicBlock
 			varExpr, err := fc.tc.Convert(varType)
 			if err != nil {
 				return err
+			}
+			if name := namedResultOf(instr); name != "" {
+				// A named result which escapes, for example to a deferred closure,
+				// must remain the variable that the function returns:
+				// deferred calls may still set it after the return statement,
+				// or after recovering from a panic.
+				stmt = defineVar(instr, &ast.UnaryExpr{Op: token.AND, X: ast.NewIdent(name)})
+				break
 			}
 			stmt = defineVar(instr, ah.CallExprByName("new", varExpr))
 		case *ssa.BinOp:
